@@ -265,6 +265,10 @@ def gen_getitem(draw):
     nd = len(shp)
     m = draw(st.integers(0, nd))
     use_ell = draw(st.integers(0, 2)) == 0
+    # one case in six: the whole key is ONE bare index object (x[[0, 2]], x[mask], x[array]) - not a tuple
+    bare = nd >= 1 and draw(st.integers(0, 5)) == 0
+    if bare:
+        m, use_ell = 1, False
     n_before = draw(st.integers(0, m)) if use_ell else m
     dims = list(range(n_before)) + list(range(nd - (m - n_before), nd))
     adv_len = None
@@ -273,7 +277,7 @@ def gen_getitem(draw):
     mask_used = False
     for dpos in dims:
         n = shp[dpos]
-        kind = draw(st.sampled_from(["i", "s", "s", "l", "m"]))
+        kind = draw(st.sampled_from(["l", "l", "m"] if bare else ["i", "s", "s", "l", "m"]))
         if kind == "l" and n_adv < 2 and not mask_used:
             if adv_len is None:
                 adv_len = draw(st.integers(1, 4))
@@ -291,9 +295,9 @@ def gen_getitem(draw):
             per.append(draw(_slice_item(n)))
     items = per[:n_before] + ([["e"]] if use_ell else []) + per[n_before:]
     # sprinkle newaxis
-    for _ in range(draw(st.sampled_from([0, 0, 1, 2]))):
+    for _ in range(0 if bare else draw(st.sampled_from([0, 0, 1, 2]))):
         items.insert(draw(st.integers(0, len(items))), ["n"])
-    as_tuple = draw(st.booleans()) or len(items) != 1 or items[0][0] == "t"
+    as_tuple = (not bare and draw(st.booleans())) or len(items) != 1 or items[0][0] == "t"
     return {"xs": [X(shp, draw(gen.grid(shp)))], "args": {"key": items, "tuple": as_tuple,
                                                           "form": draw(st.sampled_from(["index", "index", "fn"]))}}
 
@@ -325,6 +329,8 @@ def _getitem_tags(args, shapes):
                     break
     if "m" in kinds:
         t.append("bool_mask")
+    if not args.get("tuple", True):
+        t.append("bare_key_not_a_tuple")
     if "e" in kinds:
         t.append("ellipsis")
     if "n" in kinds:
